@@ -1,4 +1,5 @@
 import TV.Proofs.WorkQueueSafety
+import TV.Proofs.MonitorWQ
 /-!
 # C14 — WorkQueue reports every work error to every error subscriber exactly once
 
@@ -36,5 +37,9 @@ theorem C14_subs_monotone :
 theorem C14_subscribe_anytime :
     ∀ (s : St), step? s .subscribe = some { s with subs := s.subs + 1 } := Safety.C14_subscribe_anytime
 
+
+/-! ### the model passes the monitor the driver applies to the implementation -/
+theorem C14_model_passes_monitor (W L : Nat) (s : St) (h : Reach W L s) :
+    Mon.errorsOK (MonSound.mstOf s) (Driver.WQ.obsOf s) = true := MonSound.errorsOK_sound h
 
 end TV.C14
